@@ -75,11 +75,37 @@ def flip_if_else(tree):
     return R().visit(tree)
 
 
+def dot_to_matmul(tree):
+    class R(ast.NodeTransformer):
+        def visit_Call(self, n):
+            self.generic_visit(n)
+            f = n.func
+            if isinstance(f, ast.Attribute) and f.attr == 'dot' and not n.keywords:
+                if isinstance(f.value, ast.Name) and f.value.id in ('np', 'numpy') and len(n.args) == 2:
+                    return ast.copy_location(ast.BinOp(left=n.args[0], op=ast.MatMult(), right=n.args[1]), n)
+                if len(n.args) == 1 and not (isinstance(f.value, ast.Name) and f.value.id in ('np', 'numpy')):
+                    return ast.copy_location(ast.BinOp(left=f.value, op=ast.MatMult(), right=n.args[0]), n)
+            return n
+    return R().visit(tree)
+
+
+def compare_swap(tree):
+    SW = {ast.Lt: ast.Gt, ast.Gt: ast.Lt, ast.LtE: ast.GtE, ast.GtE: ast.LtE, ast.Eq: ast.Eq, ast.NotEq: ast.NotEq}
+
+    class R(ast.NodeTransformer):
+        def visit_Compare(self, n):
+            self.generic_visit(n)
+            if len(n.ops) == 1 and type(n.ops[0]) in SW:
+                return ast.copy_location(ast.Compare(left=n.comparators[0], ops=[SW[type(n.ops[0])]()], comparators=[n.left]), n)
+            return n
+    return R().visit(tree)
+
+
 def unparse_only(tree):
     return tree
 
 
-TRANSFORMS = {'rename-locals': rename_locals, 'swap-commute': swap_commute, 'flip-if-else': flip_if_else, 'unparse': unparse_only}
+TRANSFORMS = {'dot-to-matmul': dot_to_matmul, 'compare-swap': compare_swap, 'rename-locals': rename_locals, 'swap-commute': swap_commute, 'flip-if-else': flip_if_else, 'unparse': unparse_only}
 
 
 def run_one(args):
